@@ -151,8 +151,8 @@ PROPS = {
  },
  "C11": {
   "module": "Zog.Props.C11",
-  "theorems": [P + "C11." + t for t in ["catalogue_complete_en", "catalogue_complete_es", "catalogue_complete_default", "catalogue_described", "catalogue_well_formed", "user_tests_complete_en", "user_tests_complete_es", "user_tests_complete_default", "user_tests_described", "no_value_placeholder", "test_message_wins", "exec_formatter_next", "global_formatter_last", "issue_of_test_described", "i18n_uses_ctx_lang", "i18n_default_lang", "last_installation_wins", "reinstall_resets_lang_key", "issue_invariants_lift", "every_issue_has_a_message"]] + ["Zog.Spec.proc_inv"],
-  "streams": [st("msg", 1, 1), eng(2500, 100000, "fmt")],
+  "theorems": [P + "C11." + t for t in ["catalogue_complete_en", "catalogue_complete_es", "catalogue_complete_default", "catalogue_described", "catalogue_well_formed", "user_tests_complete_en", "user_tests_complete_es", "user_tests_complete_default", "user_tests_described", "no_value_placeholder", "test_message_wins", "exec_formatter_next", "global_formatter_last", "issue_of_test_described", "i18n_uses_ctx_lang", "i18n_default_lang", "last_installation_wins", "reinstall_resets_lang_key", "lang_value_not_a_string", "issue_invariants_lift", "every_issue_has_a_message"]] + ["Zog.Spec.proc_inv"],
+  "streams": [st("msg", 1, 1), eng(2500, 100000, "fmt"), st("http", 700, 12000)],
   "trusted_base": ["regenerated on every run (run-time dump of the compiled maps and of every built-in test): lean/Zog/Gen/Tables.lean, lean/Zog/Gen/Catalogue.lean",
                    "modelled, not verified: lean/Zog/Msg.lean mirrors conf/issueFormatConf.go NewDefaultFormatter and i18n/i18n.go; strings.ReplaceAll and fmt %v are external"] + ENGINE_TB,
   "assumptions": ["a test's own Message that itself contains {{...}} is the user's text, not an unresolved placeholder"],
